@@ -252,6 +252,16 @@ func (st *provState) compute(v ssa.Value) string {
 		return st.path(x.X)
 	case *ssa.Slice:
 		if x.Low == nil && x.High == nil && x.Max == nil {
+			// compiler-built variadic argument: new [n]T + stores + slice
+			if _, isAlloc := x.X.(*ssa.Alloc); isAlloc {
+				if elems, ok := VariadicElems(x); ok {
+					var es []string
+					for _, e := range elems {
+						es = append(es, st.path(e))
+					}
+					return "[" + strings.Join(es, ",") + "]"
+				}
+			}
 			return st.path(x.X)
 		}
 		lo, hi := "", ""
@@ -334,7 +344,19 @@ func joinSet(tag string, set map[string]bool) string {
 func (st *provState) loadAlloc(a *ssa.Alloc) string {
 	stores := StoresTo(a)
 	if len(stores) == 0 {
-		// composite values are built by stores to FieldAddr/IndexAddr of a
+		// composite literal: stores to the FieldAddrs of a
+		if fs := StructLitFields(a); len(fs) > 0 {
+			var names []string
+			for n := range fs {
+				names = append(names, n)
+			}
+			sort.Strings(names)
+			var parts []string
+			for _, n := range names {
+				parts = append(parts, n+"="+st.path(fs[n]))
+			}
+			return "lit{" + strings.Join(parts, ",") + "}"
+		}
 		return "alloc:" + a.Name() + "@" + a.Parent().Name() + ":" + a.Comment
 	}
 	set := map[string]bool{}
@@ -380,6 +402,44 @@ func (st *provState) call(c *ssa.CallCommon, v ssa.Value) string {
 		as = append(as, st.path(a))
 	}
 	return "call:" + name + "(" + strings.Join(as, ",") + ")"
+}
+
+// StructLitFields: for a local struct built field by field (composite
+// literal), the value stored into each field (single store per field).
+func StructLitFields(a *ssa.Alloc) map[string]ssa.Value {
+	pt, ok := a.Type().(*types.Pointer)
+	if !ok {
+		return nil
+	}
+	if _, ok := pt.Elem().Underlying().(*types.Struct); !ok {
+		return nil
+	}
+	out := map[string]ssa.Value{}
+	if a.Referrers() == nil {
+		return nil
+	}
+	for _, ref := range *a.Referrers() {
+		fa, ok := ref.(*ssa.FieldAddr)
+		if !ok || fa.Referrers() == nil {
+			continue
+		}
+		name := fieldName(a.Type(), fa.Field)
+		for _, r2 := range *fa.Referrers() {
+			if s, ok := r2.(*ssa.Store); ok && s.Addr == ssa.Value(fa) {
+				if _, dup := out[name]; dup {
+					out[name] = nil
+				} else {
+					out[name] = s.Val
+				}
+			}
+		}
+	}
+	for k, v := range out {
+		if v == nil {
+			delete(out, k)
+		}
+	}
+	return out
 }
 
 // VariadicElems: for a slice value built by the compiler for a variadic call
